@@ -184,6 +184,50 @@ fn adapters<B: crate::backend::Backend, P: crate::prims::Prims>(opts: &Opts, rep
             }
         }
     }
+    // dense sweep: every length 0..=520 on one axis at a time (small fixed-size buffers inside an
+    // adapter show up as a narrow window of lengths)
+    for axis in 0..3usize {
+        if axis == 2 && !B::HAS_AAD {
+            continue;
+        }
+        for len in 0..=520usize {
+            idx += 1;
+            if !opts.mine_sys(idx) {
+                continue;
+            }
+            if B::VER == 1 && len % 3 != 0 {
+                continue;
+            }
+            let mut rng = Rng::derive(opts.seed, &stream, idx);
+            let mut lens = [5usize, 3, if B::HAS_AAD { 2 } else { 0 }];
+            lens[axis] = len;
+            let (msg, footer, aad) = (rng.bytes(lens[0]), rng.bytes(lens[1]), rng.bytes(lens[2]));
+            let key: [u8; 32] = rng.arr();
+            let nonce = rng.bytes(B::LOCAL_NONCE);
+            let kl = KeyPair::<B>::Local(local_key::<B>(&key));
+            let want = join_token(&kl.header(), &r::local_seal::<P>(B::VER, &key, &nonce, &msg, &footer, &aad), &footer);
+            rep.case(&format!("{}.adapter-through-tag.dense-axis", B::NAME), fnv_parts(&[B::NAME.as_bytes(), &[axis as u8], &(len as u64).to_le_bytes()]), true);
+            let d = || json!({"backend": B::NAME, "message_len": lens[0], "footer_len": lens[1], "assertion_len": lens[2]});
+            if !matches!(guard(|| kl.seal_with_nonce(&nonce, &msg, &footer, &aad)), Ok(Ok(t)) if t == want) {
+                rep.violation(&format!("C15|{}|local|mac-adapter-saw-different-bytes", B::NAME), d());
+            }
+            if !matches!(guard(|| kl.open(&want, &aad)), Ok(Ok((m, _))) if m == msg) {
+                rep.violation(&format!("C15|{}|local|mac-adapter-saw-different-bytes:open", B::NAME), d());
+            }
+            if B::VER != 1 || len % 9 == 0 {
+                if let Ok(Ok(t)) = guard(|| kp.seal(&msg, &footer, &aad)) {
+                    let (_, body, f) = split_token(&t);
+                    if r::public_verify::<P>(B::VER, &pk_raw, &body, &f, &aad).as_deref() != Some(&msg[..]) {
+                        rep.violation(&format!("C15|{}|public|digest-adapter-saw-different-bytes", B::NAME), d());
+                    }
+                    // and the verifying side: the library must accept its own token
+                    if !matches!(guard(|| kp.open(&t, &aad)), Ok(Ok((m, _))) if m == msg) {
+                        rep.violation(&format!("C15|{}|public|digest-adapter-saw-different-bytes:verify", B::NAME), d());
+                    }
+                }
+            }
+        }
+    }
     // one very long fragment on each axis (above any 16-bit or 64 KiB internal limit)
     for (ml, fl, al) in [(70_001usize, 3usize, 0usize), (5, 70_001, 0), (5, 3, 70_001), (66_000, 66_000, if B::HAS_AAD { 66_000 } else { 0 })] {
         idx += 1;
